@@ -379,6 +379,8 @@ func (g *batchGen) ops(tag string, maxN int) []KV {
 			switch {
 			case kv.Op == "merge" && g.r.Chance(0.1):
 				kv.V = []byte("~") // operand that merges to an empty (but present) value
+			case kv.Op == "merge" && g.r.Chance(0.08):
+				kv.V = []byte("=") // operand for which the operator returns its existingValue argument itself
 			case g.r.Chance(0.12):
 				kv.V = []byte{}
 			case g.r.Chance(g.bigVals * 0.3):
@@ -395,6 +397,27 @@ func (g *batchGen) ops(tag string, maxN int) []KV {
 		out = append(out, kv)
 	}
 	return out
+}
+
+// bigBatch sets every pool key (in descending order) at the top level and,
+// with child collections in use, in one child and one grandchild as well.
+func (g *batchGen) bigBatch(valLen int) *BatchSpec {
+	g.seq++
+	fill := func(tag string) []KV {
+		var ops []KV
+		for i := len(g.pool) - 1; i >= 0; i-- {
+			v := bytesRepeat(byte('a'+i%26), valLen)
+			copy(v, fmt.Sprintf("%s%d.%d:", tag, g.seq, i))
+			ops = append(ops, KV{Op: "set", K: g.pool[i], V: v})
+		}
+		return ops
+	}
+	big := &BatchSpec{Ops: fill("v")}
+	if g.kids && len(g.names) > 0 {
+		n1, n2 := g.names[0], g.names[len(g.names)-1]
+		big.Kids = map[string]*BatchSpec{n1: {Ops: fill(n1), Kids: map[string]*BatchSpec{n2: {Ops: fill(n1 + "." + n2)}}}}
+	}
+	return big
 }
 
 func (g *batchGen) batch() *BatchSpec {
@@ -501,14 +524,29 @@ func genSingle(c *Case, r *simrt.Rand, cfg genCfg) {
 		c.Opts.CompactionPercentage = 100
 		c.Opts.LevelMaxSegments = pick(r, []int{1, 2, 2, 3})
 		c.Opts.LevelMultiplier = pick(r, []int{2, 3})
-		big := &BatchSpec{}
-		g.seq++
-		for i, k := range g.pool {
-			v := bytesRepeat(byte('a'+i%26), 8192)
-			copy(v, fmt.Sprintf("v%d.%d:", g.seq, i))
-			big.Ops = append(big.Ops, KV{Op: "set", K: k, V: v})
+		c.Prog = append(c.Prog, Op{Kind: "batch", B: g.bigBatch(8192)}, Op{Kind: "drain"})
+	} else if store && c.Opts.DeferredSort && r.Chance(0.3) {
+		// deferred sorting: a first batch much larger than the following ones
+		// (a later partial merge leaves its segments alone), filled in
+		// descending key order at every nesting level, and nothing reads it
+		// before it is persisted unless the program happens to
+		c.Prog = append(c.Prog, Op{Kind: "batch", B: g.bigBatch(40)})
+		if c.Opts.MaxPreMergerBatches != 0 && c.Opts.MaxPreMergerBatches < 4 {
+			c.Opts.MaxPreMergerBatches = 10
 		}
-		c.Prog = append(c.Prog, Op{Kind: "batch", B: big}, Op{Kind: "drain"})
+		for i := 0; i < 2; i++ {
+			// two small batches over the same collections right behind it
+			g.seq++
+			one := func(tag string) []KV {
+				return []KV{{Op: "set", K: g.pool[len(g.pool)-1-i%len(g.pool)], V: []byte(fmt.Sprintf("%s%d.0", tag, g.seq))}}
+			}
+			b := &BatchSpec{Ops: one("v")}
+			if g.kids && len(g.names) > 0 {
+				n1, n2 := g.names[0], g.names[len(g.names)-1]
+				b.Kids = map[string]*BatchSpec{n1: {Ops: one(n1), Kids: map[string]*BatchSpec{n2: {Ops: one(n1 + "." + n2)}}}}
+			}
+			c.Prog = append(c.Prog, Op{Kind: "batch", B: b})
+		}
 	}
 	if cfg.faults == "io-light" && store && r.Chance(0.3) {
 		// one or two transient write / sync failures somewhere in the run: the
